@@ -150,6 +150,7 @@ PURE_STR = {"lower", "upper", "replace", "strip", "lstrip", "rstrip", "encode", 
 class Interp:
     def __init__(self, func_node, clsname=None, oracle=None, max_paths=6000, selfname=None, loop_unroll=2,
                  depth=0, max_depth=3, exc_bases=None, resolve=None):
+        self.unknowns = []  # names of calls answered with Unknown (shared with the interpreters of inlined callees)
         self.resolve = resolve  # name -> python constant (module-level bindings), or raises KeyError
         self.f = func_node
         self.clsname = clsname
@@ -250,6 +251,19 @@ class Interp:
                 self.assign(s.target, v, s2)
                 out.append(("next", None, s2, None))
             return out
+        if isinstance(s, ast.AugAssign) and isinstance(s.op, ast.Add) and isinstance(s.target, (ast.Name, ast.Attribute)):
+            # `buf += data` on a bytearray extends the object in place: every name bound to it sees the change
+            key = s.target.id if isinstance(s.target, ast.Name) else self.attr_key(s.target)
+            cur = st.env.get(key) if key else None
+            if isinstance(cur, Const) and isinstance(cur.v, bytearray):
+                for v, s2 in self._vals(s.value, st, out, s):
+                    if isinstance(v, Const) and isinstance(v.v, (bytes, bytearray)):
+                        cur.v.extend(v.v)
+                        out.append(("next", None, s2, None))
+                    else:
+                        s2.env[key] = Unknown("bytearray")
+                        out.append(("next", None, s2, None))
+                return out
         if isinstance(s, ast.AugAssign):
             e = ast.BinOp(left=_as_load(s.target), op=s.op, right=s.value)
             ast.copy_location(e, s)
@@ -303,6 +317,43 @@ class Interp:
             for c in cur:
                 out.extend(self.block(s.body, c))
             return out
+        if isinstance(s, ast.Delete) and not State.heap and len(s.targets) == 1 and isinstance(s.targets[0], ast.Subscript) \
+                and isinstance(s.targets[0].value, (ast.Name, ast.Attribute)):
+            # `del buf[a:b]` / `del lst[i]` on a variable holding a constant sequence: the variable gets the shortened value
+            # (a bytearray is modelled by its bytes: sound as long as nothing aliases it, which the readers never do)
+            t = s.targets[0]
+            key = t.value.id if isinstance(t.value, ast.Name) else self.attr_key(t.value)
+            cur = st.env.get(key) if key else None
+            if isinstance(cur, Const) and isinstance(cur.v, (bytes, bytearray, list)):
+                sl = t.slice
+                parts = [sl.lower, sl.upper, sl.step] if isinstance(sl, ast.Slice) else [sl]
+                vals, s2 = [], st
+                ok_ = True
+                for pe in parts:
+                    if pe is None:
+                        vals.append(None)
+                        continue
+                    r_ = self.eval(pe, s2)
+                    if len(r_) != 1 or not isinstance(r_[0][0], Const):
+                        ok_ = False
+                        break
+                    vals.append(r_[0][0].v)
+                    s2 = r_[0][1]
+                if ok_:
+                    inplace = isinstance(cur.v, bytearray)
+                    seq = cur.v if inplace else (bytearray(cur.v) if isinstance(cur.v, bytes) else list(cur.v))
+                    try:
+                        if isinstance(sl, ast.Slice):
+                            del seq[slice(*vals)]
+                        else:
+                            del seq[vals[0]]
+                    except Exception as ex:
+                        return [("raise", type(ex).__name__, s2, s)]
+                    if inplace:
+                        return [("next", None, s2, None)]
+                    s3 = s2.copy()
+                    s3.env[key] = Const(bytes(seq) if isinstance(cur.v, bytes) else seq)
+                    return [("next", None, s3, None)]
         if isinstance(s, ast.Delete) and State.heap:
             for t in s.targets:
                 if isinstance(t, ast.Subscript) and not isinstance(t.slice, ast.Slice):
@@ -877,6 +928,21 @@ class Interp:
                     return [(Const(len(args[0].v)), st)]
                 except Exception:
                     return [(Exc("TypeError", e), st)]
+            if f.id in ("min", "max", "abs", "sum", "any", "all", "ord", "chr", "repr", "divmod", "round", "reversed", "range", "zip") and args \
+                    and all(isinstance(a, Const) for a in args) and not kw:
+                try:
+                    r_ = {"min": min, "max": max, "abs": abs, "sum": sum, "any": any, "all": all, "ord": ord, "chr": chr, "repr": repr,
+                          "divmod": divmod, "round": round, "reversed": reversed, "range": range, "zip": zip}[f.id](*[a.v for a in args])
+                    if f.id in ("reversed", "range", "zip"):
+                        r_ = list(r_)
+                        if len(r_) > 10000:
+                            return [(Unknown("range"), st)]
+                    return [(Const(r_), st)]
+                except Exception as ex:
+                    return [(Exc(type(ex).__name__, e), st)]
+            if f.id in ("bytearray", "memoryview") and len(args) <= 1 and all(isinstance(a, Const) and isinstance(a.v, (bytes, bytearray)) for a in args) \
+                    and not kw:
+                return [(Const(bytearray(args[0].v) if args else bytearray()) if f.id == "bytearray" else Const(bytes(args[0].v)), st)]
             if f.id in ("set", "frozenset", "list", "dict") and not args and not kw:
                 return [(Const({"set": set, "frozenset": frozenset, "list": list, "dict": dict}[f.id]()), st)]
             if f.id in ("int", "str", "bool", "bytes", "list", "tuple", "sorted", "set", "frozenset") and len(args) == 1 \
@@ -924,6 +990,19 @@ class Interp:
                     s2.env[key] = Const(recv.v + ([a0.v] if f.attr == "append" else list(a0.v)))
                 else:
                     s2.env[key] = Unknown("list")
+                return [(Const(None), s2)]
+        if isinstance(f, ast.Attribute) and isinstance(recv, Const) and isinstance(recv.v, (bytes, bytearray)) and f.attr in ("extend", "clear") \
+                and isinstance(f.value, (ast.Name, ast.Attribute)) and not kw and all(isinstance(a, Const) for a in args):
+            if isinstance(recv.v, bytearray):
+                if f.attr == "clear":
+                    recv.v.clear()
+                else:
+                    recv.v.extend(args[0].v)
+                return [(Const(None), st)]
+            key = f.value.id if isinstance(f.value, ast.Name) else self.attr_key(f.value)
+            if key is not None and key in st.env:
+                s2 = st.copy()
+                s2.env[key] = Const(b"" if f.attr == "clear" else bytes(recv.v) + bytes(args[0].v))
                 return [(Const(None), s2)]
         if isinstance(f, ast.Attribute) and isinstance(recv, Const) and isinstance(recv.v, set) and f.attr in ("add", "discard", "update", "remove") \
                 and isinstance(f.value, ast.Name) and f.value.id in st.env and not kw:
@@ -981,9 +1060,9 @@ class Interp:
         if isinstance(f, ast.Attribute) and isinstance(recv, Const):
             if recv.v is None:
                 return [(Exc("AttributeError", e), st)]
-            if type(recv.v) in (str, bytes, list, tuple, dict, int, bool, set, frozenset, float) and not hasattr(recv.v, f.attr):
+            if type(recv.v) in (str, bytes, bytearray, list, tuple, dict, int, bool, set, frozenset, float) and not hasattr(recv.v, f.attr):
                 return [(Exc("AttributeError", e), st)]  # e.g. a list where the code expects a string
-            if isinstance(recv.v, (str, bytes)) and f.attr in PURE_STR and all(isinstance(a, Const) for a in args) and not kw:
+            if isinstance(recv.v, (str, bytes, bytearray)) and f.attr in PURE_STR and all(isinstance(a, Const) for a in args) and not kw:
                 try:
                     return [(Const(getattr(recv.v, f.attr)(*[a.v for a in args])), st)]
                 except Exception as ex:
@@ -997,6 +1076,7 @@ class Interp:
                     return [(Const(list(r) if f.attr in ("keys", "values") else r), st)]
                 except Exception as ex:
                     return [(Exc(type(ex).__name__, e), st)]
+        self.unknowns.append(name or "?")  # a call the interpretation could not follow: what comes after it is a guess
         return [(Unknown("call:%s" % (name or "?")), st)]
 
     def inline(self, func, e, args, kw, st, self_param=None):
@@ -1005,6 +1085,7 @@ class Interp:
         sub = Interp(func.node, func.cls.name if func.cls else (self.clsname if self_param else None), self.oracle, self.max_paths,
                      loop_unroll=self.loop_unroll, depth=self.depth + 1, max_depth=self.max_depth,
                      exc_bases=self.exc_bases, resolve=self.resolve, selfname=self_param)
+        sub.unknowns = self.unknowns
         for hk in ("getattr_hook", "yield_hook", "exc_fields"):
             if getattr(self, hk, None) is not None:
                 setattr(sub, hk, getattr(self, hk))
